@@ -4,6 +4,7 @@
    set by an earlier primitive or initially (soundness); 3 the programs of the library operations. *)
 From VM Require Import Prelude.MachInt Prelude.Outcome Prelude.Tok Impl.Bitmap Impl.BitmapConc
   Spec.C09 Spec.C08 Suite.C08 Proofs.C09.
+From Coq Require Import Sorting.Sorted.
 
 Definition bitm (mm : mem) (p : N) : bool := N.testbit (nth (N.to_nat (p / 64)) mm 0) (p mod 64).
 (* does the primitive set / preserve bit p (page p = bit p mod 64 of word p / 64) *)
@@ -318,3 +319,614 @@ Proof.
   - apply in_map_iff in Hin. destruct Hin as (w & <- & Hw). apply word_ids_In. assumption.
   - destruct (N.ltb_spec i (g_size g)); [|destruct Hin]. destruct Hin as [<-|[]]. cbn [prim_word]. rewrite shr6_eq. auto.
 Qed.
+
+(* ---------------------------------------------------------------- 4. schedules: from positions of the
+   merged trace back to operations of threads *)
+Definition mk (t j : N) (p : prim) : event := {| e_tid := t; e_op := j; e_prim := p |}.
+Definition tid_is (t : N) (e : event) : bool := e_tid e =? t.
+Definition op_is (j : N) (e : event) : bool := e_op e =? j.
+Definition sel (t j : N) (e : event) : bool := (e_tid e =? t) && (e_op e =? j).
+Definition mkopi (t j : N) (o : cop) (r : list N) : opi := {| i_tid := t; i_idx := j; i_op := o; i_res := r |}.
+(* operation j of thread t exists and is o *)
+Definition valid_op (ths : list (list cop)) (t j : N) (o : cop) : Prop :=
+  exists ops, nth_error ths (N.to_nat t) = Some ops /\ nth_error ops (N.to_nat j) = Some o.
+
+Lemma filter_all_true {A} (f : A -> bool) l : (forall x, In x l -> f x = true) -> filter f l = l.
+Proof.
+  induction l as [|x l IH]; intros H; [reflexivity|]. cbn [filter].
+  rewrite (H x (or_introl eq_refl)). f_equal. apply IH. intros y Hy. apply H. right. assumption.
+Qed.
+Lemma filter_all_false {A} (f : A -> bool) l : (forall x, In x l -> f x = false) -> filter f l = [].
+Proof.
+  induction l as [|x l IH]; intros H; [reflexivity|]. cbn [filter].
+  rewrite (H x (or_introl eq_refl)). apply IH. intros y Hy. apply H. right. assumption.
+Qed.
+Lemma filter_andb {A} (f h : A -> bool) l : filter (fun x => f x && h x) l = filter h (filter f l).
+Proof.
+  induction l as [|x l IH]; [reflexivity|]. cbn [filter]. destruct (f x); cbn [andb filter]; rewrite IH; reflexivity.
+Qed.
+Lemma nth_error_map_inv {A B} (f : A -> B) l n y : nth_error (map f l) n = Some y ->
+  exists x, nth_error l n = Some x /\ f x = y.
+Proof.
+  revert n. induction l as [|a l IH]; intros [|n] H; try discriminate; cbn [map nth_error] in *.
+  - inversion H. exists a. split; reflexivity.
+  - apply IH. assumption.
+Qed.
+Lemma nth_error_nil {A} n : @nth_error A [] n = None.
+Proof. destruct n; reflexivity. Qed.
+Lemma nth_nil {A} n (d : A) : nth n [] d = d.
+Proof. destruct n; reflexivity. Qed.
+
+Lemma take_turn_nth : forall progs k e progs', take_turn progs k = Some (e, progs') ->
+  nth k progs [] = e :: nth k progs' [] /\ forall i, i <> k -> nth i progs' [] = nth i progs [].
+Proof.
+  induction progs as [|p rest IH]; intros k e progs' H; [discriminate|].
+  destruct k as [|k].
+  - destruct p as [|e0 p]; cbn [take_turn] in H; [discriminate|]. inversion H; subst. split; [reflexivity|].
+    intros [|i] Hi; [lia|reflexivity].
+  - assert (H' : match take_turn rest k with Some (e, rest') => Some (e, p :: rest') | None => None end = Some (e, progs'))
+      by (destruct p; exact H).
+    destruct (take_turn rest k) as [[e1 rest']|] eqn:E; [|discriminate].
+    inversion H'; subst. destruct (IH _ _ _ E) as [H1 H2]. split; [exact H1|].
+    intros [|i] Hi; [reflexivity|]. cbn [nth]. apply H2. lia.
+Qed.
+
+Lemma concat_proj : forall progs b t,
+  (forall i e, In e (nth i progs []) -> e_tid e = b + N.of_nat i) ->
+  filter (tid_is t) (concat progs) = if b <=? t then nth (N.to_nat (t - b)) progs [] else [].
+Proof.
+  induction progs as [|x progs IH]; intros b t H.
+  - cbn [concat filter]. rewrite nth_nil. destruct (b <=? t); reflexivity.
+  - cbn [concat]. rewrite filter_app.
+    assert (Hx : forall e, In e x -> e_tid e = b) by (intros e He; rewrite (H O e He); lia).
+    rewrite (IH (b + 1) t) by (intros i e Hi; rewrite (H (S i) e Hi); lia).
+    destruct (N.eq_dec b t) as [->|Hn].
+    + rewrite filter_all_true by (intros e He; unfold tid_is; rewrite (Hx e He); apply N.eqb_refl).
+      destruct (N.leb_spec (t + 1) t); [lia|]. rewrite app_nil_r.
+      rewrite N.leb_refl, N.sub_diag. reflexivity.
+    + rewrite filter_all_false by (intros e He; unfold tid_is; rewrite (Hx e He); apply N.eqb_neq; assumption).
+      cbn [app]. destruct (N.leb_spec (b + 1) t), (N.leb_spec b t); try lia; [|reflexivity].
+      replace (N.to_nat (t - b)) with (S (N.to_nat (t - (b + 1)))) by lia. reflexivity.
+Qed.
+
+Definition tagged (progs : list (list event)) : Prop :=
+  forall i e, In e (nth i progs []) -> e_tid e = N.of_nat i.
+
+(* the merged schedule restricted to one thread is that thread's event list, in order *)
+Lemma merge_proj : forall sched progs t, tagged progs ->
+  filter (tid_is t) (merge sched progs) = nth (N.to_nat t) progs [].
+Proof.
+  induction sched as [|t0 sched IH]; intros progs t Ht.
+  - cbn [merge]. rewrite (concat_proj progs 0 t) by (intros i e Hi; rewrite (Ht i e Hi); lia).
+    rewrite N.sub_0_r. destruct (N.leb_spec 0 t); [reflexivity|lia].
+  - cbn [merge]. destruct (take_turn progs (N.to_nat t0)) as [[e progs']|] eqn:E; [|apply IH; assumption].
+    destruct (take_turn_nth _ _ _ _ E) as [H1 H2].
+    assert (Ht' : tagged progs').
+    { intros i e0 Hi. apply Ht. destruct (Nat.eq_dec i (N.to_nat t0)) as [->|Hn];
+        [rewrite H1; right; assumption|rewrite <- H2 by assumption; assumption]. }
+    assert (He : e_tid e = t0).
+    { rewrite (Ht (N.to_nat t0) e) by (rewrite H1; left; reflexivity). apply N2Nat.id. }
+    cbn [filter]. rewrite (IH progs' t Ht'). unfold tid_is at 1. rewrite He.
+    destruct (N.eqb_spec t0 t) as [->|Hn]; [rewrite H1; reflexivity|].
+    apply H2. lia.
+Qed.
+
+Lemma op_events_tid : forall g t ops j e, In e (op_events g t j ops) -> e_tid e = t.
+Proof.
+  induction ops as [|o ops IH]; intros j e H; [destruct H|]. cbn [op_events] in H.
+  apply in_app_iff in H. destruct H as [H|H]; [|apply (IH _ _ H)].
+  apply in_map_iff in H. destruct H as (pr & <- & _). reflexivity.
+Qed.
+Lemma op_events_ge : forall g t ops j e, In e (op_events g t j ops) -> j <= e_op e.
+Proof.
+  induction ops as [|o ops IH]; intros j e H; [destruct H|]. cbn [op_events] in H.
+  apply in_app_iff in H. destruct H as [H|H]; [|apply IH in H; lia].
+  apply in_map_iff in H. destruct H as (pr & <- & _). cbn [e_op]. lia.
+Qed.
+Lemma thread_events_nth : forall g ths b i,
+  nth i (thread_events g b ths) [] = op_events g (b + N.of_nat i) 0 (nth i ths []).
+Proof.
+  induction ths as [|ops ths IH]; intros b i.
+  - cbn [thread_events]. rewrite !nth_nil. reflexivity.
+  - destruct i as [|i]; cbn [thread_events nth].
+    + rewrite N.add_0_r. reflexivity.
+    + rewrite IH. f_equal. lia.
+Qed.
+Lemma thread_events_tagged g ths : tagged (thread_events g 0 ths).
+Proof. intros i e Hi. rewrite thread_events_nth in Hi. apply op_events_tid in Hi. lia. Qed.
+
+Lemma proj_thread g sched ths t :
+  filter (tid_is t) (merge sched (thread_events g 0 ths)) = op_events g t 0 (nth (N.to_nat t) ths []).
+Proof.
+  rewrite merge_proj by apply thread_events_tagged. rewrite thread_events_nth, N2Nat.id. reflexivity.
+Qed.
+
+Lemma op_events_sel : forall g t ops j0 j,
+  filter (op_is j) (op_events g t j0 ops) =
+  if j0 <=? j then match nth_error ops (N.to_nat (j - j0)) with
+                   | Some o => map (mk t j) (prog_of g o) | None => [] end
+  else [].
+Proof.
+  induction ops as [|o ops IH]; intros j0 j.
+  - cbn [op_events filter]. rewrite nth_error_nil. destruct (j0 <=? j); reflexivity.
+  - cbn [op_events]. rewrite filter_app, IH.
+    destruct (N.eq_dec j0 j) as [->|Hn].
+    + rewrite filter_all_true by (intros e He; apply in_map_iff in He; destruct He as (pr & <- & _); apply N.eqb_refl).
+      destruct (N.leb_spec (N.succ j) j); [lia|]. rewrite app_nil_r.
+      rewrite N.leb_refl, N.sub_diag. reflexivity.
+    + rewrite filter_all_false by (intros e He; apply in_map_iff in He; destruct He as (pr & <- & _);
+                                    apply N.eqb_neq; assumption).
+      cbn [app]. destruct (N.leb_spec (N.succ j0) j), (N.leb_spec j0 j); try lia; [|reflexivity].
+      replace (N.to_nat (j - j0)) with (S (N.to_nat (j - N.succ j0))) by lia. reflexivity.
+Qed.
+
+(* the events of one operation, in the merged trace, are its program in order *)
+Lemma sel_events g sched ths t j o : valid_op ths t j o ->
+  filter (sel t j) (merge sched (thread_events g 0 ths)) = map (mk t j) (prog_of g o).
+Proof.
+  intros (ops & H1 & H2).
+  change (sel t j) with (fun e => tid_is t e && op_is j e). rewrite filter_andb, proj_thread.
+  rewrite (nth_error_nth _ _ [] H1), op_events_sel. rewrite N.sub_0_r, H2.
+  destruct (N.leb_spec 0 j); [reflexivity|lia].
+Qed.
+
+Lemma op_events_In : forall g t ops j0 e, In e (op_events g t j0 ops) ->
+  exists i o pr, nth_error ops i = Some o /\ In pr (prog_of g o) /\ e = mk t (j0 + N.of_nat i) pr.
+Proof.
+  induction ops as [|o ops IH]; intros j0 e H; [destruct H|]. cbn [op_events] in H.
+  apply in_app_iff in H. destruct H as [H|H].
+  - apply in_map_iff in H. destruct H as (pr & <- & Hp). exists O, o, pr. split; [reflexivity|].
+    split; [assumption|]. rewrite N.add_0_r. reflexivity.
+  - apply IH in H. destruct H as (i & o' & pr & H1 & H2 & ->). exists (S i), o', pr.
+    split; [exact H1|]. split; [assumption|]. f_equal. lia.
+Qed.
+
+Lemma event_valid g sched ths e : In e (merge sched (thread_events g 0 ths)) ->
+  exists o pr, valid_op ths (e_tid e) (e_op e) o /\ In pr (prog_of g o) /\ e = mk (e_tid e) (e_op e) pr.
+Proof.
+  intros H.
+  assert (H' : In e (filter (tid_is (e_tid e)) (merge sched (thread_events g 0 ths))))
+    by (apply filter_In; split; [assumption|apply N.eqb_refl]).
+  rewrite proj_thread in H'. apply op_events_In in H'. destruct H' as (i & o & pr & H1 & H2 & H3).
+  exists o, pr. assert (Ej : e_op e = N.of_nat i) by (rewrite H3; cbn [mk e_op]; lia).
+  split; [|split; [assumption|]].
+  - destruct (nth_error ths (N.to_nat (e_tid e))) as [ops|] eqn:E.
+    + exists ops. split; [exact E|]. rewrite (nth_error_nth _ _ [] E) in H1. rewrite Ej, Nat2N.id. assumption.
+    + apply nth_error_None in E. rewrite nth_overflow in H1 by assumption. rewrite nth_error_nil in H1. discriminate.
+  - rewrite H3 at 1. cbn [mk e_tid e_op]. rewrite H3. cbn [mk e_tid e_op]. reflexivity.
+Qed.
+
+Lemma valid_event g sched ths t j o pr : valid_op ths t j o -> In pr (prog_of g o) ->
+  In (mk t j pr) (merge sched (thread_events g 0 ths)).
+Proof.
+  intros Hv Hp. assert (H : In (mk t j pr) (filter (sel t j) (merge sched (thread_events g 0 ths)))).
+  { rewrite (sel_events g sched ths t j o Hv). apply in_map. assumption. }
+  apply filter_In in H. apply H.
+Qed.
+
+(* program order: within one thread the operation index never decreases along the merged trace *)
+Definition op_le (a b : event) : Prop := e_op a <= e_op b.
+Lemma ss_app {A} (R : A -> A -> Prop) : forall l1 l2, StronglySorted R l1 -> StronglySorted R l2 ->
+  (forall a b, In a l1 -> In b l2 -> R a b) -> StronglySorted R (l1 ++ l2).
+Proof.
+  induction l1 as [|x l1 IH]; intros l2 H1 H2 H; [assumption|]. cbn [app].
+  inversion H1 as [|y l Hs Hf]; subst. constructor.
+  - apply IH; [assumption|assumption|]. intros a b Ha Hb. apply H; [right; assumption|assumption].
+  - apply Forall_app. split; [assumption|]. apply Forall_forall. intros b Hb. apply H; [left; reflexivity|assumption].
+Qed.
+Lemma ss_mid {A} (R : A -> A -> Prop) : forall l1 e l2, StronglySorted R (l1 ++ e :: l2) -> Forall (R e) l2.
+Proof.
+  induction l1 as [|x l1 IH]; intros e l2 H; cbn [app] in H; inversion H; subst; [assumption|].
+  apply IH. assumption.
+Qed.
+Lemma op_events_sorted : forall g t ops j, StronglySorted op_le (op_events g t j ops).
+Proof.
+  induction ops as [|o ops IH]; intros j; [constructor|]. cbn [op_events]. apply ss_app.
+  - induction (prog_of g o) as [|pr l IHl]; [constructor|]. cbn [map]. constructor; [assumption|].
+    apply Forall_forall. intros b Hb. apply in_map_iff in Hb. destruct Hb as (q & <- & _). unfold op_le. cbn [e_op]. lia.
+  - apply IH.
+  - intros a b Ha Hb. apply in_map_iff in Ha. destruct Ha as (q & <- & _). apply op_events_ge in Hb.
+    unfold op_le. cbn [e_op]. lia.
+Qed.
+Lemma order_lemma g sched ths tr1 e tr2 e' : merge sched (thread_events g 0 ths) = tr1 ++ e :: tr2 ->
+  In e' tr2 -> e_tid e' = e_tid e -> e_op e <= e_op e'.
+Proof.
+  intros E Hin Ht. pose proof (proj_thread g sched ths (e_tid e)) as P. rewrite E in P.
+  rewrite filter_app in P. cbn [filter] in P. unfold tid_is at 2 in P. rewrite N.eqb_refl in P.
+  pose proof (op_events_sorted g (e_tid e) (nth (N.to_nat (e_tid e)) ths []) 0) as S. rewrite <- P in S.
+  apply ss_mid in S. rewrite Forall_forall in S. apply (S e').
+  apply filter_In. split; [assumption|]. unfold tid_is. rewrite Ht. apply N.eqb_refl.
+Qed.
+
+(* ---------------------------------------------------------------- 5. the log and the API results *)
+Lemma log_events : forall tr mm, map fst (snd (run_events mm tr)) = tr.
+Proof.
+  induction tr as [|e tr IH]; intros mm; [reflexivity|]. rewrite run_cons. cbn [snd map fst]. rewrite IH. reflexivity.
+Qed.
+Lemma log_nth tr mm i e old : nth_error (snd (run_events mm tr)) i = Some (e, old) -> nth_error tr i = Some e.
+Proof. intros H. apply (map_nth_error fst) in H. rewrite log_events in H. exact H. Qed.
+Lemma filter_map_fst (P : event -> bool) : forall lg : list (event * N),
+  map fst (filter (fun x => P (fst x)) lg) = filter P (map fst lg).
+Proof.
+  induction lg as [|x lg IH]; [reflexivity|]. cbn [filter map]. destruct (P (fst x)); cbn [map]; rewrite IH; reflexivity.
+Qed.
+Definition sel_log (lg : list (event * N)) (t j : N) : list (event * N) := filter (fun x => sel t j (fst x)) lg.
+Lemma olds_of_eq lg t j : olds_of lg t j = map snd (sel_log lg t j).
+Proof. reflexivity. Qed.
+Lemma sel_log_events g sched ths mm t j o : valid_op ths t j o ->
+  map fst (sel_log (snd (run_events mm (merge sched (thread_events g 0 ths)))) t j) = map (mk t j) (prog_of g o).
+Proof. intros Hv. unfold sel_log. rewrite filter_map_fst, log_events. apply sel_events. assumption. Qed.
+
+Lemma olds_length g sched ths mm t j o : valid_op ths t j o ->
+  length (olds_of (snd (run_events mm (merge sched (thread_events g 0 ths)))) t j) = length (prog_of g o).
+Proof.
+  intros Hv. rewrite olds_of_eq, map_length.
+  rewrite <- (map_length fst), (sel_log_events g sched ths mm t j o Hv), map_length. reflexivity.
+Qed.
+(* the w-th value an operation read is the old value of its w-th primitive, somewhere in the log *)
+Lemma olds_read g sched ths mm t j o w old : valid_op ths t j o ->
+  nth_error (olds_of (snd (run_events mm (merge sched (thread_events g 0 ths)))) t j) w = Some old ->
+  exists pr i, nth_error (prog_of g o) w = Some pr /\
+    nth_error (snd (run_events mm (merge sched (thread_events g 0 ths)))) i = Some (mk t j pr, old).
+Proof.
+  intros Hv H. rewrite olds_of_eq in H. apply nth_error_map_inv in H. destruct H as ([e old'] & Hx & Ho).
+  cbn [snd] in Ho. subst old'.
+  pose proof (map_nth_error fst _ _ Hx) as Hf. rewrite (sel_log_events g sched ths mm t j o Hv) in Hf.
+  cbn [fst] in Hf. apply nth_error_map_inv in Hf. destruct Hf as (pr & Hp & <-).
+  apply nth_error_In in Hx. apply filter_In in Hx. destruct Hx as [Hx _].
+  apply In_nth_error in Hx. destruct Hx as (i & Hi). exists pr, i. split; assumption.
+Qed.
+(* conversely a logged primitive of an operation is at its program position among the values it read *)
+Lemma olds_at g sched ths mm t j o pr old : valid_op ths t j o ->
+  In (mk t j pr, old) (snd (run_events mm (merge sched (thread_events g 0 ths)))) ->
+  exists w, nth_error (prog_of g o) w = Some pr /\
+    nth_error (olds_of (snd (run_events mm (merge sched (thread_events g 0 ths)))) t j) w = Some old.
+Proof.
+  intros Hv H.
+  assert (H' : In (mk t j pr, old) (sel_log (snd (run_events mm (merge sched (thread_events g 0 ths)))) t j)).
+  { apply filter_In. split; [assumption|]. cbn [fst]. unfold sel. cbn [mk e_tid e_op]. rewrite !N.eqb_refl. reflexivity. }
+  apply In_nth_error in H'. destruct H' as (w & Hw). exists w. split.
+  - pose proof (map_nth_error fst _ _ Hw) as Hf. rewrite (sel_log_events g sched ths mm t j o Hv) in Hf.
+    cbn [fst] in Hf. apply nth_error_map_inv in Hf. destruct Hf as (pr' & Hp & E). inversion E; subst. assumption.
+  - rewrite olds_of_eq. apply (map_nth_error snd) in Hw. exact Hw.
+Qed.
+
+Lemma nseq_nth_error k : forall a i x, nth_error (nseq k a) i = Some x -> x = a + N.of_nat i.
+Proof.
+  induction k as [|k IH]; intros a i x H; [cbn [nseq] in H; rewrite nth_error_nil in H; discriminate|].
+  destruct i as [|i]; cbn [nseq nth_error] in H.
+  - inversion H. lia.
+  - apply IH in H. lia.
+Qed.
+Lemma nseq_length k : forall a, length (nseq k a) = k.
+Proof. induction k as [|k IH]; intros a; cbn [nseq length]; [reflexivity|]. rewrite IH. reflexivity. Qed.
+Lemma word_prog_nth g (f : N -> prim) w pr : nth_error (map f (word_ids g)) w = Some pr -> pr = f (N.of_nat w).
+Proof.
+  intros H. apply nth_error_map_inv in H. destruct H as (x & Hx & <-). apply nseq_nth_error in Hx. subst. f_equal.
+Qed.
+
+(* the list of operation instances the checker builds *)
+Lemma zip_ops_In c lg t : forall ops j0 x,
+  In x (zip_ops t j0 ops (ops_results c lg t j0 ops)) <->
+  exists i o, nth_error ops i = Some o /\
+    x = mkopi t (j0 + N.of_nat i) o (op_result c lg t (j0 + N.of_nat i) o).
+Proof.
+  induction ops as [|o ops IH]; intros j0 x.
+  - split; [intros []|]. intros (i & o & H & _). rewrite nth_error_nil in H. discriminate.
+  - cbn [zip_ops ops_results hd tl In]. rewrite IH. split.
+    + intros [H|(i & o' & H1 & H2)].
+      * exists O, o. split; [reflexivity|]. rewrite N.add_0_r. symmetry. exact H.
+      * exists (S i), o'. split; [exact H1|]. replace (j0 + N.of_nat (S i)) with (N.succ j0 + N.of_nat i) by lia. exact H2.
+    + intros (i & o' & H1 & H2). destruct i as [|i].
+      * left. cbn [nth_error] in H1. inversion H1; subst. rewrite N.add_0_r. reflexivity.
+      * right. exists i, o'. split; [exact H1|].
+        replace (N.succ j0 + N.of_nat i) with (j0 + N.of_nat (S i)) by lia. exact H2.
+Qed.
+Lemma zip_threads_In c lg : forall ths t0 x,
+  In x (zip_threads t0 ths (threads_results c lg t0 ths)) <->
+  exists k ops i o, nth_error ths k = Some ops /\ nth_error ops i = Some o /\
+    x = mkopi (t0 + N.of_nat k) (N.of_nat i) o (op_result c lg (t0 + N.of_nat k) (N.of_nat i) o).
+Proof.
+  induction ths as [|ops ths IH]; intros t0 x.
+  - split; [intros []|]. intros (k & ops & i & o & H & _). rewrite nth_error_nil in H. discriminate.
+  - cbn [zip_threads threads_results hd tl]. rewrite in_app_iff, zip_ops_In, IH. split.
+    + intros [(i & o & H1 & H2)|(k & ops' & i & o & H0 & H1 & H2)].
+      * exists O, ops, i, o. split; [reflexivity|]. split; [exact H1|]. rewrite N.add_0_r. rewrite N.add_0_l in H2. exact H2.
+      * exists (S k), ops', i, o. split; [exact H0|]. split; [exact H1|].
+        replace (t0 + N.of_nat (S k)) with (N.succ t0 + N.of_nat k) by lia. exact H2.
+    + intros (k & ops' & i & o & H0 & H1 & H2). destruct k as [|k].
+      * left. cbn [nth_error] in H0. inversion H0; subst. exists i, o. split; [exact H1|].
+        rewrite N.add_0_l. rewrite N.add_0_r. reflexivity.
+      * right. exists k, ops', i, o. split; [exact H0|]. split; [exact H1|].
+        replace (N.succ t0 + N.of_nat k) with (t0 + N.of_nat (S k)) by lia. exact H2.
+Qed.
+Lemma all_In c lg ths x :
+  In x (zip_threads 0 ths (threads_results c lg 0 ths)) <->
+  exists t j o, valid_op ths t j o /\ x = mkopi t j o (op_result c lg t j o).
+Proof.
+  rewrite zip_threads_In. split.
+  - intros (k & ops & i & o & H0 & H1 & H2). exists (N.of_nat k), (N.of_nat i), o. split.
+    + exists ops. rewrite !Nat2N.id. split; assumption.
+    + rewrite N.add_0_l in H2. exact H2.
+  - intros (t & j & o & (ops & H0 & H1) & H2). exists (N.to_nat t), ops, (N.to_nat j), o.
+    split; [exact H0|]. split; [exact H1|]. rewrite N.add_0_l, !N2Nat.id. exact H2.
+Qed.
+Lemma threads_results_length c lg : forall ths t, length (threads_results c lg t ths) = length ths.
+Proof. induction ths as [|ops ths IH]; intros t; cbn [threads_results length]; [reflexivity|]. rewrite IH. reflexivity. Qed.
+
+(* reading one page through a word vector *)
+Lemma is_bit_set_words b ws p : bm_is_bit_set (with_words b ws) p = (p <? bm_size b) && bitm ws p.
+Proof.
+  unfold bm_is_bit_set, bm_is_bit_set_o, with_words, bitm. cbn [bm_size bm_words].
+  destruct (p <? bm_size b); [|reflexivity]. cbn [andb]. rewrite word_ix_eq.
+  destruct (nth_error ws (N.to_nat (p / 64))) as [w|] eqn:E.
+  - cbn [val_or]. rewrite (nth_error_nth _ _ 0 E), bit_mask_eq, land_pow2_eqb, negb_involutive. reflexivity.
+  - cbn [val_or]. apply nth_error_None in E. rewrite nth_overflow by assumption. rewrite N.bits_0. reflexivity.
+Qed.
+Lemma mem_of_In l p : mem_of l p = true <-> In p l.
+Proof.
+  unfold mem_of. rewrite existsb_exists. split.
+  - intros (x & Hx & E). apply N.eqb_eq in E. subst. assumption.
+  - intros H. exists p. split; [assumption|apply N.eqb_refl].
+Qed.
+
+(* the initial bitmap: `new` followed by set_bit for every initial page *)
+Lemma fold_set_bit : forall l b, bm_inv b ->
+  bm_inv (fold_left bm_set_bit l b) /\ same_geom (fold_left bm_set_bit l b) b /\
+  forall p, abs_pages (fold_left bm_set_bit l b) p = abs_pages b p || ((p <? bm_size b) && mem_of l p).
+Proof.
+  induction l as [|i l IH]; intros b HI.
+  - cbn [fold_left]. split; [assumption|]. split; [apply same_geom_refl|]. intros p.
+    unfold mem_of. cbn [existsb]. rewrite andb_false_r, orb_false_r. reflexivity.
+  - cbn [fold_left]. destruct (set_bit_spec b i HI) as (b' & E & HI' & G & A).
+    unfold bm_set_bit at 2 4 6. rewrite E. cbn [val_or].
+    destruct (IH b' HI') as (H1 & H2 & H3). split; [assumption|].
+    split; [eapply same_geom_trans; eassumption|]. intros p. rewrite H3, A.
+    destruct G as (G & _). rewrite G. unfold mem_of. cbn [existsb].
+    destruct (N.eqb_spec p i) as [Hpi|Hn]; [subst p|];
+      destruct (i <? bm_size b); try destruct (p <? bm_size b); try destruct (abs_pages b p);
+      try destruct (abs_pages b i); try destruct (existsb (N.eqb p) l); try destruct (existsb (N.eqb i) l); reflexivity.
+Qed.
+
+(* ---------------------------------------------------------------- 6. the model satisfies the checker *)
+Section ModelOk.
+Variable c : case08.
+Hypothesis Hwf : wf_case08 c = true.
+
+Local Notation g := (geom_of c).
+Local Notation ths := (k_threads c).
+Local Notation mm0 := (bm_words (init_bitmap c)).
+Local Notation tr := (merge (k_sched c) (thread_events (geom_of c) 0 (k_threads c))).
+Local Notation lg := (snd (run_events mm0 tr)).
+Local Notation mmF := (fst (run_events mm0 tr)).
+Local Notation all := (zip_threads 0 ths (threads_results c lg 0 ths)).
+
+Lemma wf_ps : 0 < k_ps c.
+Proof. unfold wf_case08 in Hwf. rewrite !andb_true_iff in Hwf. destruct Hwf as [[[H _] _] _]. apply N.ltb_lt. exact H. Qed.
+Lemma wf_bytes : k_bytes c < W64.
+Proof. unfold wf_case08 in Hwf. rewrite !andb_true_iff in Hwf. destruct Hwf as [[_ H] _]. apply N.ltb_lt. exact H. Qed.
+Lemma wf_valid t j o : valid_op ths t j o -> wf_cop o = true.
+Proof.
+  intros (ops & H0 & H1). unfold wf_case08 in Hwf. rewrite !andb_true_iff in Hwf. destruct Hwf as [_ H].
+  rewrite forallb_forall in H. apply nth_error_In in H0, H1. specialize (H _ H0). rewrite forallb_forall in H. apply H. exact H1.
+Qed.
+Lemma g_ps_pos : 0 < g_ps g.
+Proof. exact wf_ps. Qed.
+Lemma g_size_count : g_size g = k_count c.
+Proof. unfold k_count. cbn [geom_of g_size]. symmetry. apply pages_for_div_ceil. exact wf_ps. Qed.
+Lemma g_nwords_eq : g_nwords g = k_nwords c.
+Proof. unfold k_nwords, g_nwords. rewrite g_size_count. symmetry. apply pages_for_div_ceil. lia. Qed.
+
+Lemma init_facts : bm_inv (init_bitmap c) /\ bm_size (init_bitmap c) = g_size g /\
+  forall p, bitm mm0 p = (p <? g_size g) && mem_of (k_init c) p.
+Proof.
+  pose proof (new_inv (k_bytes c) (k_ps c) wf_ps wf_bytes) as HI.
+  destruct (fold_set_bit (k_init c) _ HI) as (H1 & (H2 & _) & H3). fold (init_bitmap c) in H1, H2, H3.
+  split; [assumption|]. split; [rewrite H2; reflexivity|]. intros p.
+  change (bitm mm0 p) with (raw_bit (init_bitmap c) p). rewrite <- abs_raw by assumption.
+  rewrite H3, new_abs. reflexivity.
+Qed.
+Lemma mm0_length : length mm0 = N.to_nat (g_nwords g).
+Proof.
+  destruct init_facts as ((Hl & _) & Hs & _). rewrite Hs in Hl. unfold g_nwords. lia.
+Qed.
+Lemma tr_in_range : in_range mm0 tr.
+Proof.
+  apply Forall_forall. intros e He. apply event_valid in He. destruct He as (o & pr & Hv & Hp & E).
+  rewrite E. cbn [mk e_prim]. pose proof (prog_in_range_lemma g o pr g_ps_pos (wf_valid _ _ _ Hv) Hp).
+  rewrite mm0_length. lia.
+Qed.
+Lemma final_mem p : mem_of (scan_words c mmF) p = (p <? g_size g) && bitm mmF p.
+Proof.
+  destruct init_facts as (_ & Hs & _). apply eq_true_iff_eq. rewrite mem_of_In. unfold scan_words.
+  rewrite filter_In, nrange_In, is_bit_set_words. cbn [with_words bm_size]. rewrite Hs.
+  unfold scan_margin. split.
+  - intros [_ H]. exact H.
+  - intros H. split; [|exact H]. apply andb_true_iff in H. destruct H as [H _]. apply N.ltb_lt in H. lia.
+Qed.
+
+Lemma in_all t j o : valid_op ths t j o -> In (mkopi t j o (op_result c lg t j o)) all.
+Proof. intros Hv. apply all_In. exists t, j, o. split; [assumption|reflexivity]. Qed.
+
+(* a logged primitive that clears page p and returned it: its operation harvested or cleared p *)
+Lemma clearing_event p i e' old : nth_error lg i = Some (e', old) -> keeps (e_prim e') p = false ->
+  N.testbit old (p mod 64) = true ->
+  exists x, In x all /\ harvested x p || clears c x p = true /\ i_tid x = e_tid e' /\ i_idx x = e_op e'.
+Proof.
+  intros Hn Hk Hb. pose proof (nth_error_In _ _ (log_nth _ _ _ _ _ Hn)) as He.
+  apply event_valid in He. destruct He as (o & pr & Hv & Hp & E).
+  exists (mkopi (e_tid e') (e_op e') o (op_result c lg (e_tid e') (e_op e') o)).
+  split; [apply in_all; assumption|]. split; [|split; reflexivity].
+  assert (Hk' : keeps pr p = false) by (rewrite E in Hk; exact Hk).
+  pose proof (proj1 (prog_clears_lemma g o p g_ps_pos (wf_valid _ _ _ Hv)) (ex_intro _ pr (conj Hp Hk'))) as Hc.
+  pose proof (wf_valid _ _ _ Hv) as Hw.
+  destruct o as [a l|a l|q|q| | | |q]; try (exfalso; exact Hc); unfold harvested, clears; cbn [mkopi i_op i_res op_result].
+  - destruct Hc as [_ Hc]. cbn [wf_cop] in Hw. apply andb_true_iff in Hw. destruct Hw as [Ha _].
+    apply N.ltb_lt in Ha. apply (overlaps_iff _ _ _ _ wf_ps Ha). exact Hc.
+  - destruct Hc as [-> _]. apply N.eqb_refl.
+  - rewrite orb_false_r. apply nth_error_In in Hn. rewrite E in Hn.
+    destruct (olds_at g (k_sched c) ths mm0 _ _ _ pr old Hv Hn) as (w & Hw1 & Hw2).
+    cbn [prog_of] in Hw1. apply word_prog_nth in Hw1. apply keeps_false_word in Hk'. rewrite Hw1 in Hk'.
+    cbn [prim_word] in Hk'. rewrite Hk', Nat2N.id, (nth_error_nth _ _ 0 Hw2). exact Hb.
+  - reflexivity.
+Qed.
+
+(* a primitive that sets page p: its operation marks p *)
+Lemma setter_marks p e0 : In e0 tr -> sets (e_prim e0) p = true ->
+  exists k, In k all /\ marks c k p = true /\ i_tid k = e_tid e0 /\ i_idx k = e_op e0.
+Proof.
+  intros He Hs. apply event_valid in He. destruct He as (o & pr & Hv & Hp & E).
+  exists (mkopi (e_tid e0) (e_op e0) o (op_result c lg (e_tid e0) (e_op e0) o)).
+  split; [apply in_all; assumption|]. split; [|split; reflexivity].
+  assert (Hs' : sets pr p = true) by (rewrite E in Hs; exact Hs).
+  pose proof (wf_valid _ _ _ Hv) as Hw.
+  pose proof (proj1 (prog_sets_lemma g o p g_ps_pos Hw) (ex_intro _ pr (conj Hp Hs'))) as [Hlt Hc].
+  unfold marks. cbn [mkopi i_op]. rewrite <- g_size_count. apply N.ltb_lt in Hlt. rewrite Hlt. cbn [andb].
+  destruct o as [a l|a l|q|q| | | |q]; try (exfalso; exact Hc).
+  - cbn [wf_cop] in Hw. apply andb_true_iff in Hw. destruct Hw as [Ha _].
+    apply N.ltb_lt in Ha. apply (overlaps_iff _ _ _ _ wf_ps Ha). exact Hc.
+  - subst. apply N.eqb_refl.
+Qed.
+
+Lemma somebody_init x p : p < g_size g -> mem_of (k_init c) p = true -> somebody_marked c all x p = true.
+Proof.
+  intros H1 H2. unfold somebody_marked. rewrite <- g_size_count. apply N.ltb_lt in H1. rewrite H1, H2. reflexivity.
+Qed.
+Lemma somebody_marker x k p : In k all -> marks c k p = true ->
+  match x with Some j => negb (before j k) | None => true end = true -> somebody_marked c all x p = true.
+Proof.
+  intros H1 H2 H3. unfold somebody_marked. apply andb_true_iff. split.
+  - unfold marks in H2. apply andb_true_iff in H2. apply H2.
+  - apply orb_true_iff. right. apply existsb_exists. exists k. split; [assumption|]. rewrite H2, H3. reflexivity.
+Qed.
+
+(* a value read by a primitive of operation x containing page p: somebody marked p, not after x *)
+Lemma read_sound x p i e old : nth_error lg i = Some (e, old) -> p / 64 = prim_word (e_prim e) ->
+  N.testbit old (p mod 64) = true -> i_tid x = e_tid e -> i_idx x = e_op e ->
+  somebody_marked c all (Some x) p = true.
+Proof.
+  intros Hn Hw Hb Ht Hj.
+  destruct (report_sound_lemma tr mm0 i e old p tr_in_range Hn Hw Hb) as [H0|(j0 & e0 & Hlt & Hn0 & Hs)].
+  - destruct init_facts as (_ & _ & Hi). rewrite Hi in H0. apply andb_true_iff in H0. destruct H0 as [H1 H2].
+    apply N.ltb_lt in H1. apply somebody_init; assumption.
+  - destruct (setter_marks p e0 (nth_error_In _ _ Hn0) Hs) as (k & Hk1 & Hk2 & Hk3 & Hk4).
+    apply (somebody_marker _ k); [assumption|assumption|].
+    unfold before. rewrite Ht, Hj, Hk3, Hk4.
+    destruct (N.eqb_spec (e_tid e) (e_tid e0)) as [Et|Et]; [|reflexivity]. cbn [andb].
+    destruct (nth_error_split _ _ Hn0) as (l1 & l2 & Etr & Hlen).
+    assert (Hin : In e l2).
+    { apply log_nth in Hn. rewrite Etr in Hn. rewrite nth_error_app2 in Hn by lia.
+      destruct (i - length l1)%nat as [|d] eqn:Ed; [lia|]. cbn [nth_error] in Hn. apply nth_error_In in Hn. exact Hn. }
+    pose proof (order_lemma g (k_sched c) ths l1 e0 l2 e Etr Hin Et) as Ho.
+    destruct (N.ltb_spec (e_op e) (e_op e0)); [lia|reflexivity].
+Qed.
+
+(* reading word w of the bitmap through a whole-bitmap operation (harvest / clone) *)
+Lemma word_read x p t j o (f : N -> prim) : valid_op ths t j o -> prog_of g o = map f (word_ids g) ->
+  (forall w, prim_word (f w) = w) -> i_tid x = t -> i_idx x = j ->
+  bitm (olds_of lg t j) p = true -> somebody_marked c all (Some x) p = true.
+Proof.
+  intros Hv Hprog Hf Ht Hj Hb. unfold bitm in Hb.
+  destruct (nth_error (olds_of lg t j) (N.to_nat (p / 64))) as [old|] eqn:E.
+  - rewrite (nth_error_nth _ _ 0 E) in Hb.
+    destruct (olds_read g (k_sched c) ths mm0 t j o _ old Hv E) as (pr & i & Hp & Hi).
+    rewrite Hprog in Hp. apply word_prog_nth in Hp. rewrite N2Nat.id in Hp.
+    apply (read_sound x p i _ old Hi); [cbn [mk e_prim]; rewrite Hp, Hf; reflexivity|assumption|assumption|assumption].
+  - apply nth_error_None in E. rewrite nth_overflow in Hb by assumption. rewrite N.bits_0 in Hb. discriminate.
+Qed.
+
+Lemma model_shapes : shapes_ok c all = true.
+Proof.
+  apply forallb_forall. intros x Hx. apply all_In in Hx. destruct Hx as (t & j & o & Hv & ->).
+  cbn [mkopi i_op i_res]. destruct o; try reflexivity. cbn [op_result].
+  rewrite (olds_length g (k_sched c) ths mm0 t j CHarvest Hv). cbn [prog_of]. rewrite map_length.
+  unfold word_ids. rewrite nseq_length, N2Nat.id, g_nwords_eq. apply N.eqb_refl.
+Qed.
+
+Lemma model_conserved : conserved c all (scan_words c mmF) = true.
+Proof.
+  apply forallb_forall. intros p Hp. apply nrange_In in Hp. rewrite <- g_size_count in Hp.
+  assert (Hlt : (p <? g_size g) = true) by (apply N.ltb_lt; assumption).
+  apply andb_true_iff. split.
+  - destruct (mem_of (k_init c) p && (p <? k_count c)) eqn:Ei; [|reflexivity]. cbn [implb].
+    apply andb_true_iff in Ei. destruct Ei as [Ei _].
+    assert (Hb : bitm mm0 p = true) by (destruct init_facts as (_ & _ & Hi); rewrite Hi, Hlt, Ei; reflexivity).
+    rewrite final_mem, Hlt. cbn [andb].
+    destruct (persist_lemma tr mm0 p tr_in_range Hb) as [H|(tra & e & trb & old & _ & _ & Hk & Hn & Ht)];
+      [rewrite H; reflexivity|].
+    destruct (clearing_event p _ e old Hn Hk Ht) as (x & Hx1 & Hx2 & _).
+    apply orb_true_iff. right. apply existsb_exists. exists x. split; assumption.
+  - apply forallb_forall. intros k Hk. destruct (marks c k p) eqn:Em; [|reflexivity]. cbn [implb].
+    apply all_In in Hk. destruct Hk as (t & j & o & Hv & ->).
+    pose proof (wf_valid _ _ _ Hv) as Hw.
+    assert (Hs : exists pr, In pr (prog_of g o) /\ sets pr p = true).
+    { apply (prog_sets_lemma g o p g_ps_pos Hw). split; [assumption|].
+      unfold marks in Em. cbn [mkopi i_op] in Em. apply andb_true_iff in Em. destruct Em as [_ Em].
+      destruct o as [a l|a l|q|q| | | |q]; try discriminate.
+      - cbn [wf_cop] in Hw. apply andb_true_iff in Hw. destruct Hw as [Ha _]. apply N.ltb_lt in Ha.
+        apply (overlaps_iff _ _ _ _ wf_ps Ha). exact Em.
+      - apply N.eqb_eq. exact Em. }
+    destruct Hs as (pr & Hp1 & Hp2).
+    pose proof (valid_event g (k_sched c) ths t j o pr Hv Hp1) as Hin.
+    destruct (in_split _ _ Hin) as (tr1 & tr2 & Etr).
+    pose proof (mark_conserved_lemma tr1 (mk t j pr) tr2 mm0 p) as MC. rewrite <- Etr in MC.
+    destruct (MC tr_in_range Hp2) as [H|(tra & e' & trb & old & E2 & _ & Hk' & Hn & Ht)].
+    + rewrite final_mem, Hlt, H. reflexivity.
+    + destruct (clearing_event p _ e' old Hn Hk' Ht) as (x & Hx1 & Hx2 & Hx3 & Hx4).
+      apply orb_true_iff. right. apply existsb_exists. exists x. split; [assumption|].
+      rewrite Hx2. cbn [andb]. unfold before. rewrite Hx3, Hx4. cbn [mkopi i_tid i_idx].
+      destruct (N.eqb_spec (e_tid e') t) as [Et|Et]; [|reflexivity]. cbn [andb].
+      assert (Hin' : In e' tr2) by (rewrite E2; apply in_or_app; right; left; reflexivity).
+      pose proof (order_lemma g (k_sched c) ths tr1 (mk t j pr) tr2 e' Etr Hin' Et) as Ho. cbn [mk e_op] in Ho.
+      destruct (N.ltb_spec (e_op e') j); [lia|reflexivity].
+Qed.
+
+Lemma model_no_invention : no_invention c all (scan_words c mmF) = true.
+Proof.
+  apply andb_true_iff. split.
+  - apply forallb_forall. intros x Hx. apply forallb_forall. intros p _.
+    destruct (reports x p) eqn:Er; [|reflexivity]. cbn [implb].
+    pose proof Hx as Hx'. apply all_In in Hx'. destruct Hx' as (t & j & o & Hv & Ex).
+    assert (Ht : i_tid x = t) by (rewrite Ex; reflexivity). assert (Hj : i_idx x = j) by (rewrite Ex; reflexivity).
+    unfold reports in Er. rewrite Ex in Er. cbn [mkopi i_op i_res] in Er.
+    destruct o as [a l|a l|q|q| | | |q]; try discriminate.
+    + (* harvest *)
+      unfold harvested in Er. cbn [i_op i_res op_result] in Er.
+      apply (word_read x p t j CHarvest (fun w => FetchAnd w 0) Hv eq_refl (fun w => eq_refl) Ht Hj Er).
+    + (* clone *)
+      cbn [op_result] in Er. fold (mem_of (scan_words c (olds_of lg t j)) p) in Er. apply mem_of_In in Er.
+      unfold scan_words in Er. apply filter_In in Er. destruct Er as [_ Er]. rewrite is_bit_set_words in Er.
+      apply andb_true_iff in Er. destruct Er as [_ Er].
+      apply (word_read x p t j CClone Load Hv eq_refl (fun w => eq_refl) Ht Hj Er).
+    + (* is_bit_set *)
+      apply andb_true_iff in Er. destruct Er as [Eq Er]. apply N.eqb_eq in Eq. subst q. cbn [op_result] in Er.
+      destruct (olds_of lg t j) as [|w rest] eqn:Eo; [discriminate|].
+      destruct (N.eqb_spec (N.land w (bit_mask p)) 0) as [|Hnz]; [discriminate|].
+      assert (Eo' : nth_error (olds_of lg t j) 0 = Some w) by (rewrite Eo; reflexivity).
+      destruct (olds_read g (k_sched c) ths mm0 t j (CIsBitSet p) _ w Hv Eo') as (pr & i & Hp & Hi).
+      cbn [prog_of] in Hp. destruct (p <? g_size g); [|discriminate]. cbn [nth_error] in Hp. inversion Hp; subst pr.
+      apply (read_sound x p i _ w Hi); [cbn [mk e_prim prim_word]; rewrite shr6_eq; reflexivity| |assumption|assumption].
+      rewrite bit_mask_eq in Hnz. apply N.eqb_neq in Hnz. rewrite land_pow2_eqb in Hnz.
+      apply negb_false_iff in Hnz. exact Hnz.
+  - apply forallb_forall. intros p Hp. apply mem_of_In in Hp. rewrite final_mem in Hp.
+    apply andb_true_iff in Hp. destruct Hp as [H1 H2]. apply N.ltb_lt in H1.
+    destruct (final_sound_lemma tr mm0 p tr_in_range H2) as [H0|(j0 & e0 & Hn0 & Hs)].
+    + destruct init_facts as (_ & _ & Hi). rewrite Hi in H0. apply andb_true_iff in H0. destruct H0 as [_ H0].
+      apply somebody_init; assumption.
+    + destruct (setter_marks p e0 (nth_error_In _ _ Hn0) Hs) as (k & Hk1 & Hk2 & _).
+      apply (somebody_marker None k); [assumption|assumption|reflexivity].
+Qed.
+
+Lemma run_C08_eq : run_C08 c =
+  {| b_log := map log_entry lg; b_final := scan_words c mmF; b_results := threads_results c lg 0 ths |}.
+Proof. unfold run_C08. destruct (run_events mm0 tr) as [m l]. reflexivity. Qed.
+
+Lemma C08_model_ok_section : ok_C08 c (run_C08 c) = true.
+Proof.
+  rewrite run_C08_eq. unfold ok_C08. cbn [b_results b_final].
+  rewrite threads_results_length, Nat.eqb_refl, model_shapes, model_conserved, model_no_invention. reflexivity.
+Qed.
+End ModelOk.
+
+Lemma C08_model_ok_lemma : forall c, wf_case08 c = true -> ok_C08 c (run_C08 c) = true.
+Proof. exact C08_model_ok_section. Qed.
